@@ -292,3 +292,7 @@ mod tests {
         assert_eq!(vh.bucket(), Some("example.com.org"));
     }
 }
+
+// verification hook (compiled only under `cargo kani`, see /verif/MANIFEST.json hooks)
+#[cfg(kani)]
+include!(concat!(env!("VERIF_KANI_INC"), "/s3s_host.rs"));
